@@ -21,6 +21,34 @@ RpcPortResult(c) == RpcPort(c)
 P2PPortResult(c) == DefaultPort(c)
 MagicResult(c) == Magic(c)
 
+\* ------------------------------------------------------------ genesis blocks
+\* Published constants (Bitcoin Core chainparams.cpp): one coinbase shared by all chains, and per chain
+\* the time, compact target and nonce of the header.  The merkle root is *computed* from the coinbase.
+LE4(n) == LE(n, 4)
+GenesisMessage == <<84, 104, 101, 32, 84, 105, 109, 101, 115, 32, 48, 51, 47, 74, 97, 110, 47, 50, 48, 48, 57, 32, 67, 104, 97, 110, 99, 101, 108, 108, 111, 114, 32, 111, 110, 32, 98, 114, 105, 110, 107, 32, 111, 102, 32, 115, 101, 99, 111, 110, 100, 32, 98, 97, 105, 108, 111, 117, 116, 32, 102, 111, 114, 32, 98, 97, 110, 107, 115>>
+GenesisPubKey == <<4, 103, 138, 253, 176, 254, 85, 72, 39, 25, 103, 241, 166, 113, 48, 183, 16, 92, 214, 168, 40, 224, 57, 9, 166, 121, 98, 224, 234, 31, 97, 222, 182, 73, 246, 188, 63, 76, 239, 56, 196, 243, 85, 4, 229, 30, 193, 18, 222, 92, 56, 77, 247, 186, 11, 141, 87, 138, 76, 112, 43, 107, 241, 29, 95>>
+GenesisCoinbase ==
+  [ver |-> <<1, 0, 0, 0>>,
+   vin |-> << [prevout |-> [hash |-> Zeros(32), n |-> Rep(255, 4)],
+               script |-> <<4, 255, 255, 0, 29, 1, 4, 69>> \o GenesisMessage, seq |-> Rep(255, 4)] >>,
+   vout |-> << [value |-> <<0, 242, 5, 42, 1, 0, 0, 0>>, script |-> <<65>> \o GenesisPubKey \o <<172>>] >>,
+   wit |-> <<>>, lock |-> Zeros(4)]
+GenesisTime(c) == IF c = "mainnet" THEN LE4(1231006505) ELSE IF c = "signet" THEN LE4(1598918400) ELSE LE4(1296688602)
+GenesisBits(c) == CASE c \in {"mainnet", "testnet"} -> <<255, 255, 0, 29>> [] c = "signet" -> <<174, 119, 3, 30>> [] c = "regtest" -> <<255, 255, 127, 32>>
+GenesisNonce(c) == CASE c = "mainnet" -> LE4(2083236893) [] c = "testnet" -> LE4(414098458) [] c = "signet" -> LE4(52613770) [] c = "regtest" -> LE4(2)
+Genesis(c) ==
+  [ver |-> <<1, 0, 0, 0>>, prev |-> Zeros(32), merkle |-> Txid(GenesisCoinbase), time |-> GenesisTime(c),
+   bits |-> GenesisBits(c), nonce |-> GenesisNonce(c), vtx |-> <<GenesisCoinbase>>]
+GenesisHash(c) == Hash256(SerHeader(Genesis(c)))
+\* the published identifiers, in display (byte-reversed) order
+PublishedGenesisMerkle == <<74, 94, 30, 75, 170, 184, 159, 58, 50, 81, 138, 136, 195, 27, 200, 127, 97, 143, 118, 103, 62, 44, 199, 122, 178, 18, 123, 122, 253, 237, 163, 59>>
+PublishedGenesisHash(c) ==
+  CASE c = "mainnet" -> <<0, 0, 0, 0, 0, 25, 214, 104, 156, 8, 90, 225, 101, 131, 30, 147, 79, 247, 99, 174, 70, 162, 166, 193, 114, 179, 241, 182, 10, 140, 226, 111>>
+    [] c = "testnet" -> <<0, 0, 0, 0, 9, 51, 234, 1, 173, 14, 233, 132, 32, 151, 121, 186, 174, 195, 206, 217, 15, 163, 244, 8, 113, 149, 38, 248, 215, 127, 73, 67>>
+    [] c = "signet" -> <<0, 0, 0, 8, 129, 152, 115, 233, 37, 66, 44, 31, 240, 249, 159, 124, 201, 187, 178, 50, 175, 99, 160, 119, 164, 128, 163, 99, 59, 238, 30, 246>>
+    [] c = "regtest" -> <<15, 145, 136, 241, 60, 183, 178, 199, 31, 42, 51, 94, 58, 79, 195, 40, 191, 91, 235, 67, 96, 18, 175, 202, 89, 11, 26, 17, 70, 110, 34, 6>>
+HalvingInterval(c) == IF c = "regtest" THEN 150 ELSE 210000
+
 Names == Chains \cup {"bogus"}
 Init == chain = "mainnet" /\ last = [op |-> "init"]
 Select(n) == chain' = SelectOutcome(chain, n).chain /\ last' = [op |-> "select", name |-> n, out |-> SelectOutcome(chain, n).out]
